@@ -30,6 +30,11 @@ CHECKS = {
          "Every operation of every generated edit history is applied to a DenseGraph, a SparseGraph and a bit-matrix model; after each operation N, M, IsEdge (all ordered pairs), Neighbours and Degrees of every live graph (sources, copies, induced subgraphs) are compared with the models, so aliasing and stale cached counts surface at the first operation that exposes them. All histories of length <= 4 (5 thorough) from 8 small start graphs are enumerated; seeded histories reach n = 12 (40 thorough). Holds on what was observed.",
          "Trusts the harness model rg.G; argument domain: valid indices, neighbour / vertex lists without repeats.",
          "DESIGN.md section 4 C05"),
+ "C09": ("exploration",
+         "runtime monitoring: brute-force value oracles and definition-based witness checkers per call, across relabellings and five representations (dense, sparse, induced view, complement views)",
+         "Every listed function is called on every class n <= 7 (8 thorough) x 6 labellings x 5 representations, on 57 named families with published values and on seeded graphs up to 13 vertices: values must equal brute force; colourings proper with exactly chi colours; edge colourings proper with exactly chi' colours in 1..chi' and 0 on non-edges; maximal cliques exactly the set, each once, channel closed (bounded receive); IsKColorable for all k in 0..n+1; polynomial evaluated at k = 0..n+1 = number of proper k-colourings; GreedyColor = reference first fit on all orders (n <= 5); degeneracy order certificate.",
+         "Trusts the brute-force oracles (self-checked against published chi/omega tables) on the sizes used.",
+         "DESIGN.md section 4 C09"),
  "C12": ("exploration",
          "runtime monitoring: model-based oracle (sorted word list, ranks = indices, minimal DFA size by hash-consing right languages) on every built automaton, Add histories with rejected words, node structure read through a verif-tagged accessor",
          "For all 2^15 word sets over {a,b} (length <= 3), all 2^13 over {a,b,c} (length <= 2), seeded sets over alphabets of 1..256 bytes up to 5000 words (thorough: 2^21 sets, the dictionary) every member, prefix, extension, one-byte edit and random probe is looked up and compared with the model (rank = index), NumberOfWords, node count (GobEncode header and accessor) = minimal DFA size, per-node word counts = right-language sizes; Add histories with out-of-order / duplicate / nil / caller-mutated words must reject exactly those and build the accepted subsequence.",
